@@ -268,18 +268,29 @@ pub fn run(c: &Case) -> Case {
     let mut out = Case { id: c.id.clone(), ops: vec![], outs: vec![] };
     let mut closed = false;
     for op in &c.ops {
-        let (o2, res) = r.op(op);
+        let (mut o2, mut res) = r.op(op);
         if res.len() == 1 && res[0] == b("CLOSED") { closed = true; }
+        if res.len() == 1 && res[0] == b("TIMEOUT") {
+            // a starved machine is not a hung server: give the reply 30 more seconds before it counts
+            let c = tok_int(&op[1]); let mut pos = 3;
+            if let (Some(req), Some(cl)) = (V::dec(op, &mut pos), r.conns.get_mut(&c)) {
+                if let crate::resp::Rd::Val(v) = cl.read(30000) {
+                    let nm = req_name(&req);
+                    if nm == b"SPOP" || nm == b"SRANDMEMBER" { v.enc(&mut o2); }
+                    res = vec![]; canon_reply(&nm, v).enc(&mut res);
+                }
+            }
+        }
         out.ops.push(o2); out.outs.push(res);
     }
     if closed {
         let t0 = std::time::Instant::now();
         while r.srv.alive() && t0.elapsed() < std::time::Duration::from_secs(5) { std::thread::sleep(std::time::Duration::from_millis(10)); }
     }
-    let drift = r.drift_bad && !closed;
+    // no drift discard: the only deadlines these histories set are 100000 s away and PTTL is compared
+    // by sign, so real time running ahead of the logical clock cannot change any output
     let alive = r.finish();
     if !alive { out.ops.push(vec![b("ALIVE")]); out.outs.push(vec![i(0)]); }
-    if drift { out.id = format!("{}-DISCARD", out.id); }
     out
 }
 
